@@ -93,6 +93,27 @@ type ST4 struct {
 	After string
 }
 
+// Window (package level) is text-unmarshalable: an atomic leaf.  The init
+// function below declares a function-local PLAIN struct that is also called
+// Window - a distinct Go type with the same printed name (pcore.Window) - which
+// must be merged field by field.  Both are stacked in the same process.
+type Window struct {
+	From, To int
+	Note     string
+}
+
+func (w *Window) UnmarshalText(b []byte) error {
+	_, err := fmt.Sscanf(string(b), "%d-%d", &w.From, &w.To)
+	return err
+}
+
+type ST5 struct {
+	Name  string
+	Win   Window
+	PWin  *Window
+	After int
+}
+
 type staticType struct {
 	name string
 	t    reflect.Type
@@ -107,7 +128,19 @@ func init() {
 		{"ST2", reflect.TypeOf(ST2{}), runStatic[ST2]},
 		{"ST3", reflect.TypeOf(ST3{}), runStatic[ST3]},
 		{"ST4", reflect.TypeOf(ST4{}), runStatic[ST4]},
+		{"ST5", reflect.TypeOf(ST5{}), runStatic[ST5]},
 	}
+	type Window struct {
+		From, To int
+		Note     string
+	}
+	type ST6 struct {
+		Name  string
+		Win   Window
+		PWin  *Window
+		After int
+	}
+	staticTypes = append(staticTypes, staticType{"ST6", reflect.TypeOf(ST6{}), runStatic[ST6]})
 }
 
 // C01StaticCase: a compiled type by index, defaults and layers.  The first
@@ -414,7 +447,7 @@ func runStatic[T any](c C01StaticCase) vrt.Verdict {
 func TestC01Static(t *testing.T) {
 	vrt.Check(t, vrt.Prop[C01StaticCase]{
 		ID: "C01", Name: "static",
-		Rule: "four compiler-made config types (scalars, durations, time.Time and pointer to it, net.IP, arrays, named scalar / slice / map / text types, user pointers incl. **int, sets, nested / pointer / embedded structs incl. an embedded pointer, and unexported / dials:\"-\" / chan / func fields between retained ones) stacked through the public path Config[T] -> View from 0..6 sources, static and watching ones interleaved in any argument order, followed by later updates of any of the watchers (in a third of the cases every watcher rewrites ONE long-lived value in place and re-reports it; in a third, watchers call Done after their last update while others still report); defaults and layers from per-(layer,leaf) seeds; " +
+		Rule: "six compiler-made config types (two of them differ only in a nested struct type called Window: a package-level text-unmarshalable one and a function-local plain one with the same printed name; scalars, durations, time.Time and pointer to it, net.IP, arrays, named scalar / slice / map / text types, user pointers incl. **int, sets, nested / pointer / embedded structs incl. an embedded pointer, and unexported / dials:\"-\" / chan / func fields between retained ones) stacked through the public path Config[T] -> View from 0..6 sources, static and watching ones interleaved in any argument order, followed by later updates of any of the watchers (in a third of the cases every watcher rewrites ONE long-lived value in place and re-reports it; in a third, watchers call Done after their last update while others still report); defaults and layers from per-(layer,leaf) seeds; " +
 			"oracle: the same pure reference model as C01/reflect, leaf by leaf by field name; non-trivial = >=2 static layers with a leaf set by >=2 of them; distinct = distinct case JSON",
 		Assumptions: []string{"a watcher update replaces that source's whole slot (documented re-stack semantics)"},
 		Gen:         genC01Static,
